@@ -134,7 +134,7 @@ def theorem_names(prop_id: str):
     path = os.path.join(LEAN, 'Cardutil', 'Props', f'{prop_id}.lean')
     src = strip_comments(open(path).read())
     ns = f'Cardutil.Props.{prop_id}'
-    names = re.findall(r'^\s*theorem\s+([A-Za-z_][A-Za-z0-9_\.\']*)', src, re.M)
+    names = re.findall(r'^\s*theorem\s+([A-Za-z_][A-Za-z0-9_\.\'?!]*)', src, re.M)
     return [f'{ns}.{n}' for n in names]
 
 
